@@ -19,11 +19,11 @@ Query(tips, rej) ==
     LET Sets == [k \in DOMAIN tips |-> after[tips[k]]]
         ER == WithRejected(rej) IN
     IF StateRes(Ver) = "v1"
-    THEN [ver |-> Ver, events |-> [i \in DOMAIN E |-> EvJson(i)], sets |-> Sets, tips |-> tips, rejected |-> rej,
+    THEN [ver |-> Ver, events |-> [i \in DOMAIN E |-> EvJson(i)], sets |-> Sets, tips |-> tips, rejected |-> rej, dishonest |-> Dishonest,
           result |-> ResultV1(ER, Ver, Sets), unconflicted |-> UnconflictedV1(ER, Sets), power |-> <<>>, others |-> <<>>,
           authdiff |-> {}, subgraph |-> {}]
     ELSE LET st == StagesV2(ER, Ver, Sets) IN
-         [ver |-> Ver, events |-> [i \in DOMAIN E |-> EvJson(i)], sets |-> Sets, tips |-> tips, rejected |-> rej,
+         [ver |-> Ver, events |-> [i \in DOMAIN E |-> EvJson(i)], sets |-> Sets, tips |-> tips, rejected |-> rej, dishonest |-> Dishonest,
           result |-> st.result, unconflicted |-> st.unconflicted, power |-> st.power, others |-> st.others,
           authdiff |-> st.authdiff, subgraph |-> st.subgraph]
 
@@ -43,8 +43,15 @@ ForkTriples ==
         /\ (Incomparable(E, t[2], t[3]) \/ Incomparable(E, t[1], t[3]))
         /\ after[t[1]] # after[t[2]]}
 
+\* state sets of an event and of one of its ancestors (a server resolving a stale state with a newer one): used
+\* for dishonest rooms, where the newer set carries events that resolution has to throw out again
+StalePairs ==
+    IF Dishonest /\ last # 0
+    THEN {<<a, last>> : a \in {x \in Ancestors(E, last) : x >= ForkFrom /\ after[x] # after[last]}}
+    ELSE {}
+
 Emit == /\ HistoryNoEsc
-        /\ \A p \in ForkPairs :
+        /\ \A p \in ForkPairs \cup StalePairs :
               /\ QueryOK(p, {})
               /\ (StateRes(Ver) # "v1" => \A x \in RejectCandidates : QueryOK(p, {x}))
         /\ (Triples => \A t \in ForkTriples : QueryOK(<<t[2], t[1], t[3]>>, {}))
